@@ -160,33 +160,56 @@ def excess_class(ctx_prec, fn, u, v, out):
 
 def run_elementary(rep, tier_, rng, budget=None):
     """-> dict of coverage counters (merged by props/c15.py); violations via rep.violation with {"fn": "ivmpc.<f>", "regime": ...}"""
-    from mpmath import iv
     load_known_b4(rep)
-    t0 = time.time()
-    budget = budget or (90 if tier_ == "quick" else 600)
     n = 30 if tier_ == "quick" else 400
     n_int = 2 if tier_ == "quick" else 4
     precs = [24, 53, 100] if tier_ == "quick" else [24, 53, 100, 200]
-    calls = {}; insts = []; pts_of = {}
-    counters = {"calls": 0, "raised": 0, "points": 0, "skipped_points": 0}
-    direct = []
+    specs = []
     for i in range(n):
         fn = rng.choice(FNS); prec = rng.choice(precs)
         regime, re_, im_ = gen_rect(rng, fn, prec)
-        if fn == "log" and re_[0] <= 0 <= re_[1] and im_[0] <= 0 <= im_[1]:
-            pass                                         # contains the origin: the code may raise or return -inf
+        specs.append((fn, regime, prec, re_, im_, list(sample_points(rng, re_, im_, n_int).items())))
+    cov = process_specs(rep, specs, budget or (90 if tier_ == "quick" else 600), "C15E_%s_s%d" % (tier_, seed()))
+    cov["elementary_precisions"] = precs
+    return cov
+
+
+def replay_elementary(rep, r):
+    """re-run one recorded call on the current tree: the recorded point first, then the standard member points"""
+    import random
+    load_known_b4(rep)
+    fn = r["fn"].split(".", 1)[1]
+    re_ = tuple(from_pair(p) for p in r["re"]); im_ = tuple(from_pair(p) for p in r["im"])
+    pts = []
+    if r.get("point"):
+        pts.append(((from_pair(r["point"][0]), from_pair(r["point"][1])), r.get("point_kind", "recorded")))
+    pts += [x for x in sample_points(random.Random(0), re_, im_, 2).items() if x[0] != (pts[0][0] if pts else None)]
+    cov = process_specs(rep, [(fn, r["regime"], int(r["prec"]), re_, im_, pts)], 300, "C15E_replay")
+    if r.get("coq_replay"):
+        ok, out, cmd = cert.check_text(r["coq_replay"], tag="C15E_replay")
+        cov["stored_certificate_still_checks"] = ok
+    return cov
+
+
+def process_specs(rep, specs, budget, tag):
+    from mpmath import iv
+    t0 = time.time()
+    calls = {}; insts = []; pts_of = {}
+    counters = {"calls": 0, "raised": 0, "points": 0, "skipped_points": 0}
+    direct = []
+    for i, (fn, regime, prec, re_, im_, points) in enumerate(specs):
         out, err = call_live(iv, fn, prec, re_, im_)
         counters["calls"] += 1
         cid = "z%04d_%s" % (i, fn)
         call = {"fn": "ivmpc." + fn, "regime": regime, "prec": prec, "re": [dy_pair(x) for x in re_], "im": [dy_pair(x) for x in im_]}
         if err:
             counters["raised"] += 1; call["raised"] = err
-            if not (fn == "log" and re_[0] <= 0 <= re_[1] and im_[0] <= 0 <= im_[1]):
+            if not (fn == "log" and re_[0] <= 0 <= re_[1] and im_[0] <= 0 <= im_[1]):     # log of a box containing 0 may raise
                 direct.append(("raised %s on a bounded rectangle inside the domain" % err, call))
             continue
         call["out"] = [[enc(x) for x in out[0]], [enc(x) for x in out[1]] if out[1] else None]
         calls[cid] = (call, out)
-        for k, ((u, v), kind) in enumerate(sample_points(rng, re_, im_, n_int).items()):
+        for k, ((u, v), kind) in enumerate(points):
             iid = "%s_p%02d" % (cid, k)
             ins = build_point(iid, fn, u, v, out, {"fn": "ivmpc." + fn, "regime": regime, "call": cid, "p": prec, "point_kind": kind})
             if ins == "bad":
@@ -198,7 +221,7 @@ def run_elementary(rep, tier_, rng, budget=None):
     for viol, call in direct:
         rep.violation("C15 %s: %s (regime %s, prec %d)" % (call["fn"], viol, call["regime"], call["prec"]), dict(call, clause="finite result"))
     res = cert.certify(insts, tactic_params={"sentence_timeout": 30, "single_timeout": 60, "batch": 30}, jobs=8,
-                       timeout=max(15, budget - (time.time() - t0)), tag="C15E_%s" % tier_)
+                       timeout=max(15, budget - (time.time() - t0)), tag=tag)
     V = res["verdicts"]
     by_fn = {}; kinds = {}; samples = []; inconc = []
     bad_calls = set()
@@ -234,7 +257,7 @@ def run_elementary(rep, tier_, rng, budget=None):
         "elementary_inconclusive_list": inconc[:25], "elementary_raised": counters["raised"],
         "elementary_skipped_points": counters["skipped_points"], "elementary_by_function": by_fn, "elementary_point_kinds": kinds,
         "elementary_regimes": sorted({"%s/%s" % (c["fn"], c["regime"].replace("+long", "")) for c, _ in calls.values()}),
-        "elementary_samples": samples, "elementary_precisions": precs, "elementary_wall_s": round(time.time() - t0, 1),
+        "elementary_samples": samples, "elementary_wall_s": round(time.time() - t0, 1),
         "elementary_checker_cmd": cert.summarize_cmds(res["cmds"])["pattern"], "elementary_coqc_runs": len(res["cmds"]),
         "elementary_technique": "point-wise certificates f(z0) in output box (corners, edge mid points, axis crossings, interior) by interval "
                                 "on re/im parts; necessary condition only",
